@@ -3,6 +3,7 @@
  * schema <desc>      tables ';' separated, fields ',' separated: id:req:kind[:args]; then '#' unions '|' separated,
  *                    members ',' separated: code:t:<table> | code:st:<size>:<align> | code:str
  *                    kinds: s:<size>:<align>  str  v:<esz>:<align>:<maxc>  sv  t:<table>  tv:<table>  u:<union>  uv:<union>
+ *                           nt:<table>:<align> (nested table root)  ns:<size>:<align> (nested struct root)
  * verify <root> <variant> <id-hex8|-> <shift> <hex>
  *                    root: t<idx> or st:<size>:<align>; variant: plain | size | typed | typedsize
  *                    the buffer is placed at an address A with A % 4096 == shift, everything around it poisoned (ASan)
@@ -23,7 +24,7 @@
 #define ASAN_UNPOISON_MEMORY_REGION(a, s) ((void)(a), (void)(s))
 #endif
 
-enum { K_SCALAR, K_STRING, K_VECTOR, K_SVEC, K_TABLE, K_TVEC, K_UNION, K_UVEC };
+enum { K_SCALAR, K_STRING, K_VECTOR, K_SVEC, K_TABLE, K_TVEC, K_UNION, K_UVEC, K_NTAB, K_NSTRUCT };
 enum { M_TABLE, M_STRUCT, M_STRING };
 typedef struct { unsigned id, required, kind; unsigned long a, b, c; } field_t;
 typedef struct { unsigned code, kind; unsigned long a, b; } member_t;
@@ -46,7 +47,7 @@ static void parse_schema(char *s)
             sscanf(f, "%u:%u:%7[a-z]:%lu:%lu:%lu", &x->id, &x->required, kind, &x->a, &x->b, &x->c);
             x->kind = !strcmp(kind, "s") ? K_SCALAR : !strcmp(kind, "str") ? K_STRING : !strcmp(kind, "v") ? K_VECTOR :
                       !strcmp(kind, "sv") ? K_SVEC : !strcmp(kind, "t") ? K_TABLE : !strcmp(kind, "tv") ? K_TVEC :
-                      !strcmp(kind, "u") ? K_UNION : K_UVEC;
+                      !strcmp(kind, "u") ? K_UNION : !strcmp(kind, "nt") ? K_NTAB : !strcmp(kind, "ns") ? K_NSTRUCT : K_UVEC;
         }
     }
     if (hash) for (t = strtok_r(hash, "|", &save1); t && nunions < MAXT; t = strtok_r(0, "|", &save1)) {
@@ -99,6 +100,9 @@ static int verify_table_generic(flatcc_table_verifier_descriptor_t *td, int ti)
         case K_TABLE: ret = flatcc_verify_table_field(td, (flatbuffers_voffset_t)f->id, (int)f->required, tvs[f->a % MAXT]); break;
         case K_TVEC: ret = flatcc_verify_table_vector_field(td, (flatbuffers_voffset_t)f->id, (int)f->required, tvs[f->a % MAXT]); break;
         case K_UNION: ret = flatcc_verify_union_field(td, (flatbuffers_voffset_t)f->id, (int)f->required, uvs[f->a % MAXT]); break;
+        /* nt:<table>:<align>  ns:<size>:<align> — the arguments as the generated call passes them */
+        case K_NTAB: ret = flatcc_verify_table_as_nested_root(td, (flatbuffers_voffset_t)f->id, (int)f->required, 0, (uint16_t)f->b, tvs[f->a % MAXT]); break;
+        case K_NSTRUCT: ret = flatcc_verify_struct_as_nested_root(td, (flatbuffers_voffset_t)f->id, (int)f->required, 0, f->a, (uint16_t)f->b); break;
         default: ret = flatcc_verify_union_vector_field(td, (flatbuffers_voffset_t)f->id, (int)f->required, uvs[f->a % MAXT]); break;
         }
         if (ret) return ret;
@@ -169,6 +173,14 @@ static void walk_table(const void *t, int ti, int depth)
                 acc((const uint8_t *)t + vte, 1, 1); ty = union_type(t, f->id - 1); if (!ty) break;
                 vte = log_vt(t, f->id); if (!vte) break;
                 acc((const uint8_t *)t + vte, 4, 4); walk_member(table_ptr(t, f->id), (int)(f->a % MAXT), ty, depth); } break;
+        /* nested buffers: <field>(t) is the ubyte vector; <field>_as_root(t) = __flatbuffers_nested_buffer_as_root: T_as_root / S_as_root
+           on the pointer to the vector's first byte (root offset read there, then the table / struct relative to that pointer) */
+        case K_NTAB: vte = log_vt(t, f->id); if (vte) { const uint8_t *v; acc((const uint8_t *)t + vte, 4, 4); v = vector_ptr(t, f->id);
+                acc(v - 4, 4, 4); n = flatbuffers_vec_len(v); acc(v, n, 1);
+                acc(v, 4, 4); walk_table(v + __flatbuffers_uoffset_read_from_pe(v), (int)(f->a % MAXT), depth + 1); } break;
+        case K_NSTRUCT: vte = log_vt(t, f->id); if (vte) { const uint8_t *v; acc((const uint8_t *)t + vte, 4, 4); v = vector_ptr(t, f->id);
+                acc(v - 4, 4, 4); n = flatbuffers_vec_len(v); acc(v, n, 1);
+                acc(v, 4, 4); acc(v + __flatbuffers_uoffset_read_from_pe(v), f->a, f->b); } break;
         default: { const uint8_t *types = 0; flatbuffers_generic_vec_t vals = 0;
                 vte = log_vt(t, f->id - 1);
                 if (vte) { acc((const uint8_t *)t + vte, 4, 4); types = vector_ptr(t, f->id - 1); acc(types - 4, 4, 4); n = flatbuffers_vec_len(types); acc(types, n, 1); }
